@@ -885,6 +885,21 @@ def btok(bs):
         return "-"
     return "h" + bytes(bs).hex()
 
+def gen_table_index_sweep(f):
+    """every decimal exponent that can become a table index on the fast / disguised fast path (and a margin around the
+    windows), crossed with the significands at which the branch tests change: 0 (three valid spellings: no digits at all,
+    fraction zeros only), 1, 2^(mbits+1) and its
+    neighbours, a 19-digit value -- the unchecked reads of `pow_fast_path` / `int_pow_fast_path` see every index they
+    can see, also for a zero significand (seed C08-g)"""
+    F = FMT[f]
+    M = 1 << (F["mbits"] + 1)
+    out = []
+    for e in range(-45, 46):
+        for a, b in (("", ""), ("", "000"), ("", "0"), ("1", ""), (str(M), ""), (str(M - 1), ""), (str(M + 1), ""),
+                     ("", "1"), ("9" * 19, ""), ("1" + "0" * 18, "")):
+            out.append((pf(f, a, b, e + len(b)), "B-table-index"))
+    return out
+
 def gen_garbage(rng, f, count):
     out = []
     for _ in range(count):
